@@ -46,7 +46,7 @@ func keep(d *m.Design) bool {
 func TestResponseRoundTrip(t *testing.T) {
 	n := rt.EnvInt("VERIF_CHECKS", 24)
 	seed := rt.EnvInt("VERIF_SEED", 1)
-	sess, built := rt.Prepare(t, "c03", rt.Options{Profile: gen.Response(), N: n, Seed: seed, Keep: keep, Extra: []*m.Design{gen.ParamMatrix(), gen.DefaultsMatrix(), gen.DefaultsBodyMatrix(), gen.NestMatrix(), gen.ViewMatrix(), gen.InheritMatrix()}})
+	sess, built := rt.Prepare(t, "c03", rt.Options{Profile: gen.Response(), N: n, Seed: seed, Keep: keep, Extra: []*m.Design{gen.ParamMatrix(), gen.DefaultsMatrix(), gen.DefaultsBodyMatrix(), gen.NestMatrix(), gen.ViewMatrix(), gen.InheritMatrix(), gen.RespCookieMatrix()}})
 	defer sess.Close()
 	defer rt.CloseAll(built)
 	if len(built) == 0 {
